@@ -153,6 +153,53 @@ pub fn zero_tag_family() -> Vec<(String, ModelSpec)> {
     pool
 }
 
+/// T7: container sizes beyond a few thousand entries (capacity / size thresholds of the serialised
+/// maps): `n` tag-model tokens, and `n` tag n-grams for ONE (token, relative position). The tokens
+/// and n-grams the texts exercise ("a", "ab", "b", "ba") are spread over the whole list.
+pub fn scale_tag_family(n: usize) -> Vec<(String, ModelSpec)> {
+    let filler = |i: usize| -> String {
+        // distinct strings over c..z, never a substring pattern of the evaluation texts
+        let mut s = String::new();
+        let mut k = i;
+        loop {
+            s.push((b'c' + (k % 24) as u8) as char);
+            k /= 24;
+            if k == 0 {
+                break;
+            }
+        }
+        s
+    };
+    let mut out = vec![];
+    let pool6 = ngram_pool(2);
+    {
+        let mut m = boundary_part(0, 2);
+        let real = ["a", "ab", "b", "ba"];
+        for i in 0..n {
+            if i % (n / 4).max(1) == 0 && i / (n / 4).max(1) < 4 {
+                let t = real[i / (n / 4).max(1)];
+                m.tag_models.push(tag_model(t, &[3, 2], &[pool6[0].clone(), pool6[3].clone(), pool6[7].clone()], 0, 900 + i as u64));
+            }
+            m.tag_models.push(tag_model(&filler(i), &[2], &[pool6[(i % 7) as usize].clone()], 0, i as u64));
+        }
+        out.push((format!("T7 {n} tag tokens"), m));
+    }
+    {
+        let mut m = boundary_part(0, 2);
+        let mut ngs: Vec<TagNg> = vec![];
+        for i in 0..n {
+            if i % (n / 3).max(1) == 0 {
+                ngs.push([TagNg::Char("a".into(), 0), TagNg::Char("ba".into(), 0), TagNg::Char("aa".into(), 0)][(i / (n / 3).max(1)) % 3].clone());
+            }
+            ngs.push(TagNg::Char(filler(i), 0));
+        }
+        m.tag_models.push(tag_model("a", &[3, 2], &ngs, 0, 4242));
+        m.tag_models.push(tag_model("ab", &[2, 2], &[pool6[2].clone()], 1, 78));
+        out.push((format!("T7 {n} tag n-grams at one position"), m));
+    }
+    out
+}
+
 /// T6: nested tag n-grams (suffix chains) for ONE token at the SAME relative position, each with
 /// its own zero pattern (none / trailing zeros / all zero / leading zeros), for class counts on
 /// both sides of the fixed(8)/variable switch: the merge along suffix chains must add every class.
@@ -379,6 +426,7 @@ pub fn run(tier: Tier) -> ! {
     let mut cases = families(tier);
     cases.extend(zero_tag_family().into_iter().map(|(desc, spec)| Case { spec, desc: format!("T5 {desc}") }));
     cases.extend(nested_tag_family().into_iter().step_by(tier.pick(3, 1)).map(|(desc, spec)| Case { spec, desc }));
+    cases.extend(scale_tag_family(tier.pick(5000, 70000)).into_iter().map(|(desc, spec)| Case { spec, desc }));
     chk.set("models", json!(cases.len()));
     chk.set("texts", json!(texts.len()));
     chk.set("max_text_len", json!(l));
